@@ -914,3 +914,5 @@ META = {
     "assignments are frozen in the catalogue with their reason. PLY and the tokenizer are trusted.",
     "more": 'Also decided: the retry budget of the recovery loop grows with the length of the input (a bound on the number of segments), not with the number of lines alone; the second-phase scope queries are pure functions of the live binding stack (no memo that outlives a def/class scope). The target check whose SyntaxError feeds the recovery loop traverses every statement-holding field of the interpreter\'s grammar (cases included); both phases shift a physical-line column by the preceding physical lines before cutting a joined logical line. The cheap regular-expression pre-check in front of the break scan matches, as a bare substring, every spelling of every token type the scan stops at. Whether a quoted word is a complete string is decided by the shared string pattern alone (every verdict of check_quotes is a constant or that pattern\'s match).',
 }
+
+META["more"] += ' Every attribute of the second-phase transformer that is filled during a walk is re-bound by ctxvisit before the next walk starts (a memo emptied only after the walk survives a walk that ended in an exception).'
